@@ -7,6 +7,7 @@ import re
 import subprocess
 from collections import Counter
 
+import c11_bind
 import gen_cachekey as g
 import vlib
 
@@ -17,28 +18,68 @@ KNOWN_OUTPUTS = "C11-endpoint-templates-reading-outputs"
 # -----------------------------------------------------------------------------------------------------------------
 # regeneration of Gen/CacheKeys.lean
 
-def regenerate(R):
-    """Gen/CacheKeys.lean from the current source; returns error text or None"""
+UNBOUND = set()   # key functions of the current source whose writes could not be related to their inputs
+
+
+def extract(R):
+    """the module the extractor generates from the current source (labels = Go expressions); returns (text, error)"""
     exe = os.path.join(R.tmp, "cachekey-extract")
     p = subprocess.run(["go", "build", "-o", exe, "."], cwd=os.path.join(vlib.VERIF, "extract", "cachekey"),
                        env=vlib.go_env(), capture_output=True, text=True)
     if p.returncode != 0:
-        return "extractor does not build: " + p.stderr[-800:]
+        return None, "extractor does not build: " + p.stderr[-800:]
     p = subprocess.run([exe, "-repo", vlib.REPO], capture_output=True, text=True)
     err = None
     if p.returncode != 0:
         err = "extractor failed closed: " + p.stderr[-800:]
         if p.returncode != 3 or "end Heimdall.Gen.CacheKeys" not in p.stdout:
-            return err
+            return None, err
+    return p.stdout, err
+
+
+def bind_and_write(R, exe, raw):
+    """binds the extracted writes to the inputs of the key functions by evaluating the real functions for the probe
+    configurations (tools/c11_bind.py) and writes Gen/CacheKeys.lean; returns the names of the unbound functions"""
+    fns = c11_bind.parse_gen(raw)
+    probes = g.probe_cases()
+    impl = vlib.run_cases([exe], [c for c, _ in probes], env=harness_env(R))
+    bound, unbound, order = {}, [], []
+    for _, me in probes:
+        if me["fn"] not in order:
+            order.append(me["fn"])
+    for fn in order:
+        pr = []
+        for (c, me), i in zip(probes, impl):
+            if me["fn"] != fn:
+                continue
+            if not isinstance(i, dict) or len(i.get("keys") or []) != 1 or fn not in fns:
+                pr = None
+                break
+            if "mech" in me:
+                env = g.mech_env(me["mech"], 0, me["step"], i.get("srv", g.SRV), {k: v[0] for k, v in (i.get("obs") or {}).items()})
+            else:
+                env = g.plain_env(fn, me["cfg"], i.get("obs"), i.get("srv", g.SRV))
+            r = c11_bind.resolve(env, bound)
+            if r is None:
+                pr = None
+                break
+            pr.append((r, bytes.fromhex(i["keys"][0])))
+        b = c11_bind.bind(fns[fn], pr) if pr else None
+        if b is None:
+            unbound.append(fn)
+        else:
+            bound[fn] = b
+    text = c11_bind.rewrite(raw, bound)
     path = os.path.join(vlib.LEAN, "HeimdallModel", "Gen", "CacheKeys.lean")
     with vlib.LeanLock():
         old = open(path).read() if os.path.exists(path) else ""
-        if old != p.stdout:
+        if old != text:
             with open(path, "w") as fh:
-                fh.write(p.stdout)
-    R.coverage["generated_key_functions"] = p.stdout.count(": List Field := [")
-    R.coverage["generated_fields"] = len(re.findall(r"^\s+\.(?:raw|fixed|u64|lp|joined|lpList|mapRaw|lpMap|opt|tag) ", p.stdout, re.M))
-    return err
+                fh.write(text)
+    R.coverage["generated_key_functions"] = text.count(": List Field := [")
+    R.coverage["generated_fields"] = len(re.findall(r"^\s+\.(?:raw|fixed|u64|lp|joined|lpList|mapRaw|lpMap|opt|tag) ", text, re.M))
+    R.coverage["key_functions_bound_to_inputs"] = len(bound)
+    return unbound
 
 
 def harness_env(R):
@@ -107,7 +148,9 @@ def check_keys(R, exe, pairs, stats, label):
             stats["nondeterministic"] += 1
             found.append(("spec", f"{fn}: {len(ik)} different keys for one configuration over {i.get('n')} evaluations "
                                   f"(key derivation depends on map iteration order)", {"case": c, "impl": i, "model": mo}))
-        if not ik or not set(ik) <= set(mk):
+        if fn in UNBOUND or (fn == "endpoint" and UNBOUND & {"apiKey", "basicAuth", "httpMessageSignatures", "clientCredentialsHash"}):
+            stats["key_cases_of_unbound_functions"] += 1
+        elif not ik or not set(ik) <= set(mk):
             found.append(("model", f"{fn}: key of the implementation differs from SHA-256 of the bytes the extracted "
                                    f"field list writes", {"case": c, "impl": i, "model": mo}))
         j = idx - 1 if me.get("pair") else None
@@ -234,7 +277,8 @@ def judge_history(m, steps, impl, mo):
     if not isinstance(mo, dict) or "model" not in mo:
         res.append(("model", "no model result: " + json.dumps(mo)[:300]))
         return res
-    # model vs implementation
+    # model vs implementation (not for a key function that could not be related to its inputs)
+    bound = kind not in UNBOUND
     classes = mo["classes"]
     ref = {}
     for i, r in enumerate(off):
@@ -245,6 +289,8 @@ def judge_history(m, steps, impl, mo):
     for i, (a, mm, sp) in enumerate(zip(on, mo["model"], mo["spec"])):
         io = OUT.get(a["out"], a["out"])
         en = g.cache_of(m, steps[i].get("override", 0))[0]
+        if not bound:
+            continue
         if en and a["keys"] != [mm["key"]]:
             res.append(("model", f"step {i}: cache looked up under {a['keys']}, model key {mm['key']}"))
         if a["hit"] != mm["hit"] or (kind != "jwtFinalizer" and a["calls"] != mm["calls"]) or io != mm["out"]:
@@ -517,6 +563,8 @@ def run_aux(R, exe, hist, stats):
                                   f"(a response computed for another request was served)"))
         if isinstance(mres, dict) and "model" in mres:
             for k, (a, mm) in enumerate(zip(on, mres["model"])):
+                if fn in UNBOUND:
+                    break
                 if a["hit"] != mm["hit"] or a["calls"] != mm["calls"]:
                     v.append(("model", f"step {k}: implementation hit={a['hit']} calls={a['calls']}, model hit={mm['hit']} "
                                        f"calls={mm['calls']}"))
@@ -599,13 +647,20 @@ def record(R, found, limit=14):
 
 def run(R):
     stats = Counter()
-    gen_err = regenerate(R)
-    lean_ok = vlib.step_lean(R, PID)
+    raw, gen_err = extract(R)
     exe = vlib.step_harness(R)
     if exe is None:
         R.violation("harness does not build against /repo (API used by the correspondence check changed)",
                     {"build_log": R.harness_log[-3000:]}, no_input=True)
         return
+    UNBOUND.clear()
+    if raw is not None:
+        UNBOUND.update(bind_and_write(R, exe, raw))
+    if UNBOUND & {"endpoint", "subject"}:
+        UNBOUND.update(g.MECHS)
+    if "clientCredentialsKey" in UNBOUND:
+        UNBOUND.add("ccFinalizer")
+    lean_ok = vlib.step_lean(R, PID)
     quick = R.tier == "quick"
     found = []
     cplain, chist, caux, cknown = load_corpus()
@@ -721,6 +776,10 @@ def run(R):
     R.coverage["distinct_nontrivial"] = len(nontriv)
 
     record(R, found)
+    if UNBOUND:
+        R.violation("the writes of these key functions could not be related to their inputs (their field lists stay as "
+                    "extracted, the model comparison is skipped for them): " + ", ".join(sorted(UNBOUND)),
+                    {"unbound": sorted(UNBOUND)}, no_input=True)
     if gen_err:
         R.violation("cache-key extractor: " + gen_err, {"stderr": gen_err}, no_input=not found)
     if not lean_ok:
